@@ -48,12 +48,15 @@ StrContents == {<<>>} \cup { <<c>> : c \in StrAlpha } \cup { <<c, d>> : c \in St
 Strings == { Case("String", <<Q>> \o EscapeQuotes(c) \o <<Q>>, c, <<"str", c>>) : c \in StrContents }
 Geographies == { Case("Geography", S(p) \o <<Q>> \o S(c) \o <<Q>>, S(c), <<"geo", S(c)>>) :
                    p \in {"geography", "GEOGRAPHY", "Geography"},
-                   c \in {"POINT(1 2)", "SRID=4326;POINT(-122.1 47.6)", ""} }
+                   c \in {"POINT(1 2)", "SRID=4326;POINT(-122.1 47.6)", "", "POINT(1 2) -- O''Hare", "''"} }
 \* ------------------------------------------------------------- GUIDs
 Guids == { Case("GUID", S(g), S(g), <<"guid", LowerSeq(S(g))>>) :
              g \in {"00000000-0000-0000-0000-000000000000", "01234567-89ab-cdef-0123-456789abcdef",
                     "FFFFFFFF-FFFF-FFFF-FFFF-FFFFFFFFFFFF", "a7af27e6-F5A0-11e9-9649-0A252986adba",
-                    "deadbeef-dead-beef-dead-beefdeadbeef"} }
+                    "deadbeef-dead-beef-dead-beefdeadbeef",
+                    \* first groups that read like numbers with an exponent, a date or a negative number follows
+                    "12e45678-1234-5678-9abc-def012345678", "1E234567-0000-4000-8000-000000000000", "9999999e-1234-4321-8765-123456789012",
+                    "0e000000-0000-0000-0000-000000000000", "20200229-1200-4000-8000-00000000e000"} }
 \* ------------------------------------------------------------- dates and times
 IsLeap(y) == (y % 4 = 0 /\ y % 100 # 0) \/ y % 400 = 0
 DaysIn(y, m) == IF m = 2 THEN (IF IsLeap(y) THEN 29 ELSE 28) ELSE IF m \in {4, 6, 9, 11} THEN 30 ELSE 31
@@ -134,6 +137,9 @@ CasesOf(f) == CASE f = "Integer" -> Integers [] f = "Float" -> Decimals [] f = "
 X == <<"Id", <<>>, S("x")>>   Y == <<"Id", <<>>, S("y")>>   One == <<"Lit", "Integer", S("1")>>
 Node(c) == IF c.kind = "Id" THEN IdTree(c.val) ELSE <<"Lit", c.kind, c.val>>
 Contexts == {"alone", "rhs", "lhs", "arith", "list2", "list1", "arg", "concat", "lambda"}
+\* positions only an identifier can take: the root of a path of 2, 3 and 4 segments, and the owner of a collection
+IdContexts == {"path2", "path3", "path4", "coll", "pathcoll", "path3coll"}
+V == <<"Id", <<>>, S("v")>>
 \* <<text, expected tree, path of the literal in Sub-order child indexes>>
 InContext(c, k) ==
   LET L == Node(c)  tx == c.text IN
@@ -145,6 +151,12 @@ InContext(c, k) ==
     [] k = "list1"  -> <<S("x in (") \o tx \o S(",)"), Cmp("in", X, Lst(<<L>>)), <<2, 1>> >>
     [] k = "arg"    -> <<S("f.g(") \o tx \o S(")"), Call(<<"Id", <<S("f")>>, S("g")>>, <<L>>), <<2>> >>
     [] k = "concat" -> <<S("concat(") \o tx \o S(", x) eq y"), Cmp("eq", Call(<<"Id", <<>>, S("concat")>>, <<L, X>>), Y), <<1, 2>> >>
+    [] k = "path2"  -> <<tx \o S("/p eq 1"), Cmp("eq", Attr(L, S("p")), One), <<1, 1>> >>
+    [] k = "path3"  -> <<tx \o S("/p/q eq 1"), Cmp("eq", Attr(Attr(L, S("p")), S("q")), One), <<1, 1, 1>> >>
+    [] k = "path4"  -> <<S("1 lt ") \o tx \o S("/p/q/r"), Cmp("lt", One, Attr(Attr(Attr(L, S("p")), S("q")), S("r"))), <<2, 1, 1, 1>> >>
+    [] k = "coll"   -> <<tx \o S("/any(v: v eq 1)"), Coll(L, "any", Lam(V, Cmp("eq", V, One))), <<1>> >>
+    [] k = "pathcoll" -> <<tx \o S("/p/all(v: v eq 1)"), Coll(Attr(L, S("p")), "all", Lam(V, Cmp("eq", V, One))), <<1, 1>> >>
+    [] k = "path3coll" -> <<tx \o S("/p/q/any(v: v eq 1)"), Coll(Attr(Attr(L, S("p")), S("q")), "any", Lam(V, Cmp("eq", V, One))), <<1, 1, 1>> >>
     [] k = "lambda" -> <<S("y/any(v: v eq ") \o tx \o S(")"),
                          Coll(Y, "any", Lam(<<"Id", <<>>, S("v")>>, Cmp("eq", <<"Id", <<>>, S("v")>>, L))), <<2, 2, 2>> >>
 
@@ -152,7 +164,7 @@ NoLit == [kind |-> "none"]
 Init == fam \in (IF OnlyFam = "" THEN Families ELSE {OnlyFam}) /\ lit = NoLit /\ ctxt = "none"
 PickLit == /\ lit = NoLit /\ \E c \in CasesOf(fam) : lit' = c
            /\ UNCHANGED <<fam, ctxt>>
-PickCtx == /\ lit # NoLit /\ ctxt = "none" /\ \E k \in Contexts : ctxt' = k
+PickCtx == /\ lit # NoLit /\ ctxt = "none" /\ \E k \in Contexts \cup (IF lit.kind = "Id" THEN IdContexts ELSE {}) : ctxt' = k
            /\ UNCHANGED <<fam, lit>>
 Next == PickLit \/ PickCtx
 IsCase == ctxt # "none"
